@@ -387,7 +387,27 @@ def rule_r9(ctx):
     c09.rule_r3(ctx, rid="C14.R9")
 
 
-RULES = [rule_r1, rule_r2, rule_r3, rule_r4, rule_r5, rule_r6, rule_r7, rule_r8, rule_r9]
+def rule_r10(ctx, rid="C14.R10"):
+    ctx.r.rule(rid, "a failing task cannot take its worker down: the handler of the worker loop that contains a task's exception evaluates nothing of the task itself - the task is handed to the logging call as an argument (formatted lazily, inside logging's own containment), never formatted with an f-string / % / str() / repr() in the handler")
+    p = ctx.p
+    f = p.func("task.ThreadedTaskDispatcher.handler_thread")
+    hs = [h for t in ast.walk(f.node) if isinstance(t, ast.Try) and any(isinstance(c, ast.Call) and isinstance(c.func, ast.Attribute) and c.func.attr == "service" for b in t.body for c in ast.walk(b)) for h in t.handlers]
+    ctx.r.floor(rid, len(hs), 1, "handlers around task.service() in the worker loop")
+    for h in hs:
+        bad = None
+        for st in h.body:
+            for x in ast.walk(st):
+                eager = isinstance(x, ast.JoinedStr) or (isinstance(x, ast.BinOp) and isinstance(x.op, ast.Mod) and isinstance(x.left, ast.Constant) and isinstance(x.left.value, str)) \
+                    or (isinstance(x, ast.Call) and dotted(x.func) in ("str", "repr", "format")) or (isinstance(x, ast.Call) and isinstance(x.func, ast.Attribute) and x.func.attr == "format")
+                if eager and any(isinstance(y, ast.Name) and y.id == "task" for y in ast.walk(x)):
+                    bad = x
+        if bad is None:
+            ctx.r.ok(rid, "the handler formats nothing of the task eagerly", f.loc(h))
+        else:
+            ctx.r.violation(rid, key_of(f, None, "eager-task-format"), "the worker loop's handler evaluates `%s` itself: a task whose __repr__ / __str__ raises makes the exception escape the loop, the worker dies without being accounted for and the tasks queued behind it are never run" % norm(bad)[:60], f.loc(bad))
+
+
+RULES = [rule_r1, rule_r2, rule_r3, rule_r4, rule_r5, rule_r6, rule_r7, rule_r8, rule_r9, rule_r10]
 
 from ..selftest import M, T, V  # noqa: E402
 
